@@ -134,7 +134,7 @@ def parsed(factory, params):
 RESERVED = ['table', 'ref', 'note', 'enum', 'as', 'indexes', 'null', 'true', 'pk', 'unique', 'project', 'tablegroup', 'default', 'not null']
 
 
-def api_names(K, which):
+def api_names(K, which, fix=None):
     """API-built database whose names need quoting or are reserved words; which selects the named element kind"""
     args = [('rw', IntRange(0, len(RESERVED))), ('schema', IntRange(0, 3))] + hole_args('n', K, QNAME)
 
@@ -167,7 +167,8 @@ def api_names(K, which):
     def body(a):
         return _roundtrip(build(a))
 
-    return Harness(body, args, describe=lambda a: dict(_rt_detail(build(a)), which=which), bounds={'which': which, 'K': K, 'reserved': RESERVED})
+    return Harness(body, args, describe=lambda a: dict(_rt_detail(build(a)), which=which), bounds={'which': which, 'K': K, 'reserved': RESERVED},
+                   fixed=fix)
 
 
 TABLE_NAMES = ['a b', 'T.x', 'é', 'table']
@@ -275,11 +276,12 @@ def instances(tier):
         if i['factory'] == 'table' and p['note_form'] == 'triple':
             pass
         pp_ = dict(p)
-        if quick and (i['factory'] == 'others' or (i['factory'] == 'column' and p.get('quoted'))):
+        if quick and (i['factory'] in ('others', 'table', 'index') or (i['factory'] == 'column' and p.get('quoted'))):
             pp_['K'] = 1
         add('parsed/' + i['name'], 'parsed', {'factory': i['factory'], 'params': pp_}, T1 if quick else 6000, vacuous_if=vac)
     for which in ('column', 'item', 'enum', 'ref', 'group', 'project', 'sticky'):
-        add(f'api/names/{which}/K{1 if quick else 2}', 'api_names', {'K': 1 if quick else 2, 'which': which}, T1)
+        fx = None if (which == 'enum' or not quick) else {'schema': 1 if which in ('column', 'item') else 0}
+        add(f'api/names/{which}/K{1 if quick else 2}', 'api_names', {'K': 1 if quick else 2, 'which': which, 'fix': fx}, T1)
     for i in range(len(TABLE_NAMES)):
         add(f'api/table_names/{i}', 'api_table_names', {'i': i}, T1)
     for site in ('table', 'sticky', 'project', 'group'):
